@@ -6,9 +6,9 @@ from harness import runner, tlc, isagen
 INV = ['SizeIsSum', 'StepsAreWholeBytes', 'Emit']
 ADDR = 16
 PAT = {'any': (1, ['anyop']), 'num': (1, ['num8']), 'reg': (1, ['regs']), 'ind': (1, ['ind']), 'num2': (2, ['num8', 'num8'])}
-INVTXT = {'bare': 'mac', 'lit': 'mac 5', 'fwd': 'mac fwd', 'back': 'mac back', 'reg': 'mac r1', 'ind': 'mac [r1+5]', 'lit2': 'mac 5, 9'}
-ARGTXT = {'bare': [], 'lit': ['5'], 'fwd': ['fwd'], 'back': ['back'], 'lit2': ['5', '9'], 'ind': ['5'], 'reg': [None]}
-OPTXT = {'bare': [], 'lit': ['5'], 'fwd': ['fwd'], 'back': ['back'], 'lit2': ['5', '9'], 'ind': ['[r1+5]'], 'reg': ['r1']}
+INVTXT = {'sum': 'mac 3+2', 'bare': 'mac', 'lit': 'mac 5', 'fwd': 'mac fwd', 'back': 'mac back', 'reg': 'mac r1', 'ind': 'mac [r1+5]', 'lit2': 'mac 5, 9'}
+ARGTXT = {'sum': ['3+2'], 'bare': [], 'lit': ['5'], 'fwd': ['fwd'], 'back': ['back'], 'lit2': ['5', '9'], 'ind': ['5'], 'reg': [None]}
+OPTXT = {'sum': ['3+2'], 'bare': [], 'lit': ['5'], 'fwd': ['fwd'], 'back': ['back'], 'lit2': ['5', '9'], 'ind': ['[r1+5]'], 'reg': ['r1']}
 
 
 def step_text(ins, ph, n):
